@@ -21,6 +21,8 @@ func init() {
 		{Name: "willqos-shift-4", Rule: "R12.3", Where: "(*Connect).SetWill", Edits: []Edit{{"connect.go", "\tp.flags.toggle(v<<3, v < 3)", "\tp.flags.toggle(v<<4, v < 3)"}}},
 		{Name: "will-retain-not-mirrored", Rule: "R12.3", Where: "(*Connect).SetWill", Edits: []Edit{{"connect.go", "\tp.flags.toggle(WillRetain, will.Retain())\n", ""}}},
 		{Name: "empty-username-clears-password-flag", Rule: "R12.2", Where: "(*Connect).SetUsername", Edits: []Edit{{"connect.go", "\tif len(v) == 0 {\n\t\tp.username = nil\n\t}", "\tif len(v) == 0 {\n\t\tp.username = nil\n\t\tp.flags.toggle(PasswordFlag, false)\n\t}"}}},
+		{Name: "client-id-truncated-at-23-bytes", Rule: "R12.1", Where: "(*Connect).SetClientID", Edits: []Edit{{"connect.go", "func (p *Connect) SetClientID(v string) { p.clientID = wstring(v) }", "func (p *Connect) SetClientID(v string) {\n\tif len(v) > 23 {\n\t\tv = v[:23]\n\t}\n\tp.clientID = wstring(v)\n}"}}},
+		{Name: "keep-alive-clamped", Rule: "R12.1", Where: "(*Connect).SetKeepAlive", Edits: []Edit{{"connect.go", "func (p *Connect) SetKeepAlive(v uint16) { p.keepAlive = wuint16(v) }", "func (p *Connect) SetKeepAlive(v uint16) {\n\tif v > 3600 {\n\t\tv = 3600\n\t}\n\tp.keepAlive = wuint16(v)\n}"}}},
 		{Name: "setpassword-clears-username-flag", Rule: "R12.2", Where: "(*Connect).SetPassword", Edits: []Edit{{"connect.go", "\tp.flags.toggle(PasswordFlag, len(p.password) > 0)", "\tp.flags = 0\n\tp.flags.toggle(PasswordFlag, len(p.password) > 0)"}}},
 		{Name: "toggle-as-if-else", Silent: true, Edits: []Edit{{"wiretypes.go", "\tif on {\n\t\t*v = *v | bits(flag)\n\t\treturn\n\t}\n\t*v = *v & bits(^flag)", "\tif on {\n\t\t*v |= bits(flag)\n\t} else {\n\t\t*v &^= bits(flag)\n\t}"}}},
 	}})
@@ -222,6 +224,37 @@ func checkC12(p *Prog, c *Check) {
 				dom = []sv{{k: 'p', addr: "ARGP"}}
 			} else {
 				dom = argDomain(pt, "arg:")
+				// plus the values around every constant the setter's call tree compares a length / an integer with
+				// (a truncation at 23 bytes, a clamp at 100 …)
+				switch u := pt.Underlying().(type) {
+				case *types.Basic:
+					if u.Info()&types.IsString != 0 {
+						for _, n := range p.lenDomainFor(st.fn) {
+							if n > 2 {
+								dom = append(dom, sv{k: 's', i: n, addr: fmt.Sprintf("arg:%d", n)})
+							}
+						}
+					} else if u.Info()&types.IsInteger != 0 {
+						have := map[int64]bool{}
+						for _, d := range dom {
+							have[d.i] = true
+						}
+						for _, n := range p.cmpConstsFor(st.fn) {
+							if v := truncInt(n, pt, p.U.Sizes); v == n && !have[n] {
+								have[n] = true
+								dom = append(dom, sv{k: 'i', i: n})
+							}
+						}
+					}
+				case *types.Slice:
+					if isByteSlice(pt) {
+						for _, n := range p.lenDomainFor(st.fn) {
+							if n > 2 {
+								dom = append(dom, sv{k: 's', i: n, addr: fmt.Sprintf("arg:%d", n)})
+							}
+						}
+					}
+				}
 			}
 			if dom == nil {
 				c.Unk("R12.1", cons, p.Pos(st.fn.Pos()), "no abstract domain for parameter type "+typeStr(pt))
